@@ -37,6 +37,8 @@ pub struct DwarfRef {
     /// (first row index, end row index exclusive) per sequence; the last row is the end_sequence row
     pub seqs: Vec<(usize, usize)>,
     pub funcs: Vec<Func>,
+    /// address ranges of DW_TAG_inlined_subroutine instances
+    pub inlined: Vec<(u64, u64)>,
     pub min_load_addr: u64,
 }
 
@@ -125,6 +127,15 @@ pub fn load(exe: &str) -> Result<DwarfRef, String> {
         // ---- subprograms
         let mut entries = unit.entries();
         while let Some(entry) = entries.next_dfs().map_err(|e| e.to_string())? {
+            if entry.tag() == gimli::DW_TAG_inlined_subroutine {
+                let mut it = unit_ref.die_ranges(entry).map_err(|e| e.to_string())?;
+                while let Some(r) = it.next().map_err(|e| e.to_string())? {
+                    if r.end > r.begin {
+                        out.inlined.push((r.begin, r.end));
+                    }
+                }
+                continue;
+            }
             if entry.tag() != gimli::DW_TAG_subprogram {
                 continue;
             }
@@ -237,6 +248,10 @@ impl DwarfRef {
             }
         }
         best
+    }
+
+    pub fn in_inlined(&self, pc: u64) -> bool {
+        self.inlined.iter().any(|(lo, hi)| *lo <= pc && pc < *hi)
     }
 
     /// Is `pc` a statement boundary: some is_stmt row with a non-empty range starts exactly there.
